@@ -195,3 +195,98 @@ func VerifC14Teardown() {
 	verifrt.Assert(f1 == f2, "C14/sliced-teardown-holds-the-finalizer-alike")
 	verifrt.Reach("compared")
 }
+
+// VerifC04ControllerOrder: deletion / archival of an ObjectSet with several phases through the real controller wiring
+// (controller -> phases reconciler -> phase reconciler), two passes, with every delete answered by the API in one of
+// three ways: done (object gone), accepted but the object lingers (foreign finalizer), or 409 Conflict (somebody
+// wrote the object between the read and the delete). At the moment of every delete all objects of later phases are
+// gone, and the finalizer goes / Archived=True is reported only when nothing controlled is left.
+func VerifC04ControllerOrder() {
+	ctl, c, _, uncached, _ := vC11Setup(true)
+	deleting := verifrt.Bool("deleting")
+	nPhases := verifrt.IntRange("nPhases", 2, verifrt.Bound("maxPhases", 3))
+	os := &corev1alpha1.ObjectSet{}
+	os.Name, os.Namespace, os.UID = "me", "ns", "uid-me"
+	os.Generation = 3
+	os.Status.Revision = 2
+	os.Finalizers = []string{constants.CachedFinalizer}
+	if deleting {
+		now := metav1.Now()
+		os.DeletionTimestamp = &now
+	} else {
+		os.Spec.LifecycleState = corev1alpha1.ObjectSetLifecycleStateArchived
+	}
+	t := true
+	phaseOf := map[string]int{}
+	for p := 0; p < nPhases; p++ {
+		name := "x" + strconv.Itoa(p)
+		x := vNamedCM(name)
+		os.Spec.Phases = append(os.Spec.Phases, corev1alpha1.ObjectSetTemplatePhase{Name: "p" + strconv.Itoa(p), Objects: []corev1alpha1.ObjectSetObject{x}})
+		phaseOf[name] = p
+		live := x.Object.DeepCopy()
+		live.SetNamespace("ns")
+		live.SetUID(types.UID("uid-" + name))
+		live.SetResourceVersion("9")
+		live.SetOwnerReferences([]metav1.OwnerReference{{APIVersion: "package-operator.run/v1alpha1", Kind: "ObjectSet", Name: "me", UID: "uid-me", Controller: &t}})
+		uncached.Put(live)
+	}
+	c.Put(os)
+	present := func(name string) bool {
+		_, ok := uncached.Objs[verifk8s.Key{Kind: "ConfigMap", Namespace: "ns", Name: name}]
+		return ok
+	}
+	outOfOrder := false
+	nDeletes := 0
+	finalizerGoneWhileControlled := false
+	archivedWhileControlled := false
+	anyLeft := func() bool {
+		for name := range phaseOf {
+			if present(name) {
+				return true
+			}
+		}
+		return false
+	}
+	c.Outcome = func(call *verifk8s.Call) error {
+		if call.DryRun {
+			return nil
+		}
+		switch {
+		case call.Verb == "delete":
+			p, ok := phaseOf[call.Key.Name]
+			if !ok {
+				return nil
+			}
+			for name, q := range phaseOf {
+				if q > p && present(name) {
+					outOfOrder = true
+				}
+			}
+			nDeletes++
+			switch verifrt.IntRange("delete"+strconv.Itoa(nDeletes)+".answer", 0, 2) {
+			case 0:
+				delete(uncached.Objs, verifk8s.Key{Kind: "ConfigMap", Namespace: "ns", Name: call.Key.Name})
+			case 2:
+				return verifk8s.Conflict(call.Key.Name)
+			}
+		case call.Verb == "patch" && call.Key.Name == "me":
+			if anyLeft() {
+				finalizerGoneWhileControlled = true
+			}
+		case call.Verb == "status-update" && call.Key.Name == "me":
+			if st, _ := vCondStatus(call.Obj, corev1alpha1.ObjectSetArchived); st == "True" && anyLeft() {
+				archivedWhileControlled = true
+			}
+		}
+		return nil
+	}
+	req := ctrl.Request{NamespacedName: types.NamespacedName{Namespace: "ns", Name: "me"}}
+	for pass := 0; pass < 2 && nDeletes < 4; pass++ {
+		_, _ = ctl.Reconcile(context.Background(), req)
+	}
+	verifrt.Assert(!outOfOrder, "C04/delete-only-after-later-phases-are-gone")
+	verifrt.Assert(!finalizerGoneWhileControlled, "C04/finalizer-held-while-controlled-objects-remain")
+	verifrt.Assert(!archivedWhileControlled, "C04/archived-only-when-nothing-controlled-is-left")
+	verifrt.Assert(nDeletes > 0, "C04/teardown-deletes-controlled-objects")
+	verifrt.Reach("torn-down")
+}
